@@ -61,6 +61,13 @@ def main():
         run.proof_broken.append(f"translator:_slice_indices:{e}")
     # 2. proofs
     run.build_and_audit(["TdVerif.Props.C18"])
+    try:
+        import re as _re
+        _known = set(_re.findall(r'"([^"]+)"', (gen_tables.LEAN / "TdVerif/Model/DualCoverage.lean").read_text()))
+        _new = [n for n in gen_tables.dual_helper_names() if n not in _known]
+        run.notes.append(f"functions with an is_compiling() branch not listed in Model/DualCoverage.lean (covered by the program stream only): {_new}")
+    except Exception as e:
+        run.notes.append(f"dual-helper listing failed: {e}")
     drv = run.driver()
 
     import tensordict.utils as U
